@@ -43,11 +43,22 @@ def main():
         finally:
             sh(["git", "-C", "/repo", "checkout", "--", "."])
             sh(["git", "-C", "/repo", "clean", "-fdq", "src"])
-    if not a.only and not a.checks:
+    if not a.checks:
+        # results are accumulated in seeded/results.json (one entry per seeded change and check; the latest run wins) and INDEX.md is rebuilt from it
+        rp = os.path.join(ROOT, "seeded", "results.json")
+        res = json.load(open(rp)) if os.path.exists(rp) else {}
+        rev = sh(["git", "-C", ROOT, "rev-parse", "--short", "HEAD"]).stdout.strip()
+        for r in rows:
+            res[f"{r[0]}|{r[2]}"] = {"seed": r[0], "breaks": r[1], "check": r[2], "result": r[3], "keys": r[4] if len(r) > 4 else "", "seconds": r[5] if len(r) > 5 else "",
+                                      "tier": a.tier, "verif_rev": rev}
+        json.dump(res, open(rp, "w"), indent=1, sort_keys=True)
         with open(os.path.join(ROOT, "seeded", "INDEX.md"), "w") as f:
-            f.write("# Seeded property-breaking changes and the checks that catch them\n\n(regenerated by tools/run_seeded.py --tier %s)\n\n| seeded change | breaks | check run | result | issue keys | s |\n|---|---|---|---|---|---|\n" % a.tier)
-            for r in rows:
-                f.write("| " + " | ".join(str(x) for x in r) + " |\n")
+            ncaught = sum(1 for v in res.values() if str(v["result"]).startswith("caught"))
+            f.write("# Seeded property-breaking changes and the checks that catch them\n\n(rebuilt by tools/run_seeded.py from seeded/results.json; %d of %d rows caught)\n\n"
+                    "| seeded change | breaks | check run | tier | result | issue keys | s | /verif rev |\n|---|---|---|---|---|---|---|---|\n" % (ncaught, len(res)))
+            for k in sorted(res):
+                v = res[k]
+                f.write(f"| {v['seed']} | {v['breaks']} | {v['check']} | {v['tier']} | {v['result']} | {v['keys']} | {v['seconds']} | {v['verif_rev']} |\n")
     bad = [r for r in rows if not str(r[3]).startswith("caught")]
     print(f"{len(rows) - len(bad)}/{len(rows)} caught")
     return 1 if bad else 0
